@@ -196,6 +196,27 @@ Fits(O, sh, hist, noLfs, fracSame) ==
 
 FitsIdle(sh, hist) == Fits(InitOcc, sh, hist, FALSE, FALSE)
 
+\* non-scattered mode (Continuous.schedule_task with scattered = FALSE): ONE pass over the nodes in
+\* cyclic order from the persistent offset `off`; a stretch of nodes may be partial on its first and on
+\* its last node only (an MPI request), every node in between gives a full node's worth of slots; a node
+\* which yields nothing breaks the stretch and the search starts afresh behind it; nodes the colocate
+\* history excludes are skipped without breaking the stretch.
+RECURSIVE ContSearch(_, _, _, _, _, _, _)
+ContSearch(O, sh, hist, off, i, rem, first) ==
+  IF rem = 0 THEN TRUE
+  ELSE IF i >= NNodes THEN FALSE
+  ELSE LET n       == (off + i) % NNodes
+           spn     == SPN(sh)
+           want    == Min2(rem, spn)
+           cap     == Avail(O, n, sh, FALSE, FALSE)
+           partial == sh.ranks > 1 /\ (first \/ rem < spn)
+           found   == IF partial THEN Min2(cap, want) ELSE (IF cap >= want THEN want ELSE 0)
+       IN  IF n \notin Eligible(sh, hist) THEN ContSearch(O, sh, hist, off, i + 1, rem, first)
+           ELSE IF found = 0 THEN ContSearch(O, sh, hist, off, i + 1, sh.ranks, TRUE)
+           ELSE ContSearch(O, sh, hist, off, i + 1, rem - found, FALSE)
+
+FitsCont(O, sh, hist, off) == ~Oversize(sh) /\ SPN(sh) > 0 /\ ContSearch(O, sh, hist, off, 0, sh.ranks, TRUE)
+
 (* ---- canonical placement: what a first-fit search from node 0 yields --- *)
 NodeSlots(O, n, sh, k, fracSame) ==
   LET fc  == SetToSortSeq(FreeCores(O, n), <)
